@@ -659,7 +659,7 @@ PROPS["C07"] = dict(
 
 PROPS["C13"] = dict(
     coq="Properties_C13",
-    level_text="Proved in Coq on the big-step unmarshaller model (ObjProof.v): completion is signalled only after exactly one complete well-formed value has been consumed (the consumed tokens are the flattening of a value tree); an error is attributed to one of the tokens given; the verdict and the value depend only on the tokens up to completion / the offending token (frame theorems); the model has no panic outcome — every partial reflect operation is an explicit error. The marshaller's own rendering of every well-typed value is accepted and reconstructs it (C01); acceptance of every other rendering (indefinite lengths, either integer spelling, any key order, present-but-empty omitempty fields, ignored keys) and the documented rejections are RenderProof.v when present and are otherwise covered by the correspondence run. Tied to obj.Unmarshaller token by token: type-directed renderings in varied spellings, every prefix, single-token mutations, all sequences up to length 3 (quick) / 4 (thorough) over a 20-token alphabet against 11 fixed targets.",
+    level_text="Proved in Coq on the big-step unmarshaller model. ObjProof.v: completion is signalled only after exactly one complete well-formed value has been consumed; an error is attributed to one of the tokens given; verdict and value depend only on the tokens up to completion / the offending token; the model has no panic outcome. RenderProof.v: EVERY rendering of a well-typed value that fits the target is accepted and reconstructs the value up to req — the relation 'renders' allows exact or indefinite container lengths (any declared length for arrays, slices and plain maps, which the unmarshaller never checks), either integer spelling, map entries and struct fields in any order, absent fields behind nil embedded pointers, ignored keys, null for nil things, arbitrary tags on tokens into typed targets, and (lax) omitempty fields present although empty — and the marshaller's own output is one such rendering, so the token round trip is a corollary; what does not fit is rejected on the offending token: a first token the target kind does not take (table first_ok, with the converse), unknown struct field, struct length mismatch, repeated map key (struct maps: last one wins, proved), array overflow (short arrays are zero-padded, proved), unknown union member, extra union entry. Tied to obj.Unmarshaller token by token: type-directed renderings in varied spellings, every prefix, single-token mutations, all sequences up to length 3 (quick) / 4 (thorough) over a 20-token alphabet against 11 fixed targets.",
     level_note="big-step model; per-Step done/err positions compared by the harness. Trusted as in trusted_base. No axioms.",
     rule="(target type, atlas, token sequence); non-trivial = at least 2 tokens; distinct by payload",
     trusted_base=_OBJ_TB,
